@@ -130,6 +130,13 @@ func (c11) Gen(r *rand.Rand, tier string, run int) *core.Case {
 		c.Params["fault_op"] = -2
 		c.Params["app_close_after"] = j % 160 // scheduling decisions before the Close
 		c.Batch += "-app-close"
+		if block%20 == 14 {
+			// the client is one the server made itself (Server.Client: an
+			// in-process connection, as the server's own session uses), and
+			// what happens at the drawn moment is the end of the server
+			c.Params["local_client"] = 1
+			c.Batch = fmt.Sprintf("scenario-%c-local-client-server-terminated", 'a'+block%4)
+		}
 	} else if j >= 635 {
 		c.Params["fault_op"] = -1 // fault-free run of this block
 	} else {
@@ -176,7 +183,15 @@ func (c11) Run(c *core.Case, env *core.Env) {
 	}
 	w.Impls[0].SlowMs = 20
 	h := env.Invoke(0, "connect", "")
-	cl, err := Connect("client", "u", "p")
+	var cl bus.Client
+	if c.P("local_client", 0) == 1 {
+		zzsim.SetNode("client")
+		cl = w.Srv.Client()
+		zzsim.SetNode("harness")
+		env.Probe("clients-made-by-the-server-itself")
+	} else {
+		cl, err = Connect("client", "u", "p")
+	}
 	env.Return(h, "", err)
 	if err != nil {
 		st.connectFail = err
@@ -240,7 +255,16 @@ func (c11) Run(c *core.Case, env *core.Env) {
 			seq := zzsim.Seq()
 			st.mu.Lock()
 			st.appClose = seq
+			if c.P("local_client", 0) == 1 {
+				st.lossKind = "server-terminated-under-its-own-client"
+			}
 			st.mu.Unlock()
+			if c.P("local_client", 0) == 1 {
+				zzsim.Event("the server is terminated")
+				zzsim.SetNode("server")
+				w.Srv.Terminate()
+				return
+			}
 			zzsim.Event("application closes the endpoint")
 			cl.Channel().EndPoint().Close()
 		}()
@@ -600,7 +624,7 @@ func (c11) Check(c *core.Case, env *core.Env, res zzsim.Result, v *core.Verdict)
 	if appClose != 0 {
 		where = fmt.Sprintf("the application closed the client's endpoint at %d", appClose)
 		if st.lossKind != "" {
-			where = fmt.Sprintf("%s at %d (the server had stopped reading)", st.lossKind, appClose)
+			where = fmt.Sprintf("%s at %d", st.lossKind, appClose)
 		}
 	}
 	if n := c.P("cut", 0); n > 0 {
